@@ -83,6 +83,16 @@ func driveSchnorr(c *ctx) {
 	for _, l := range []int{0, 1, 31, 33, 64} {
 		newPub(randBytes(rng, l))
 	}
+	// a VALID x inside a string of another length: the SEC 1 encodings of the same point (02/03 || x, 04 || x || y), a sign octet in
+	// front, a zero octet behind, the x twice — an x-only key is 32 bytes and nothing else
+	for i := 0; i < 4; i++ {
+		P := mulG(add(randBig(rng, add(bigN, -1)), 1))
+		cm, unc := P.CompressedBytes(), P.UncompressedBytes()
+		x := cm[1:]
+		for _, b := range [][]byte{cm, append([]byte{cm[0] ^ 1}, x...), unc, append([]byte{0}, x...), append(append([]byte{}, x...), 0), append(append([]byte{}, x...), x...), x[:31], x[1:]} {
+			newPub(b)
+		}
+	}
 	// x in [n, p): valid field elements that are not canonical scalars (the key is a FIELD element, the bound is p)
 	for _, q := range pointsWithXAboveN(rng, c.scale(4, 30)) {
 		if pk := newPub(be32(q.x)[:]); pk != nil {
